@@ -959,7 +959,11 @@ def run(ctx):
     if mc_err:
         raise mc_err[0]
     if "baseline" in rej:
-        raise MachineryError(f"baseline Profile('x') does not match Params!Default: {rej['baseline']}")
+        # the DEFAULT value or type of a parameter is not the documented one (Params!Default): every route then parses the
+        # parameter with another type - a violation of the code under test, not a machinery failure
+        ctx.violation("DefaultsAsDocumented", {"route": "baseline", "clause": "DefaultsAsDocumented", "detail": str(rej["baseline"])[:200]},
+                      {"baseline": str(rej["baseline"])}, f"Profile('x') does not match the documented defaults: {rej['baseline']}")
+        return
     # both directions must agree on the emitted cases
     for eid, a in py_ok.items():
         if a != (eid not in rej):
